@@ -20,7 +20,8 @@ META = {
         "Theorems in Coq 8.16 over an executable model of SiteInfoHistoryBase.get / *_create_history / "
         "ModuleBase.get / SiteInfo.get: soundness, completeness, gaps, uniqueness and order independence for "
         "every history and every date, 'last' = greatest (start,end) key, open ends = infinities, station "
-        "text/list/case equivalence, purity of repeated queries.  The model is tied to the code on every run by "
+        "text/list/one-shot-iterable/case equivalence, combined query = module columns for any form of the station argument "
+        "(get and get_history), purity of repeated queries.  The model is tied to the code on every run by "
         "a correspondence check: random histories, boundary dates, station spellings and repeated queries are run "
         "on midgard and compared with the model inside Coq (vm_compute)."),
     "level_note": (
@@ -33,7 +34,8 @@ THEOREMS = [
     "get_sound", "get_complete", "get_none_in_gaps", "get_unique", "get_order_independent",
     "half_open_boundaries", "open_ends_are_infinite", "last_is_latest_start", "last_defined_on_nonempty",
     "history_from_records", "station_forms_equal", "station_case_irrelevant", "combined_forms_equal",
-    "combined_equals_modules", "query_pure", "c18_pop_refuted",
+    "combined_equals_modules", "iterable_forms_equal", "combined_any_form_equals_modules",
+    "combined_history_equals_modules", "get_is_lookup_in_history", "query_pure", "c18_pop_refuted",
 ]
 
 REQ = "From Verif Require Import Model.C18_History."
@@ -182,6 +184,60 @@ def digest(x):
     return repr(x)
 
 
+# The accepted forms of the station argument (`Union[str, Iterable]`).  text / list / tuple / keys can be iterated
+# again and again; genexp / map / filter / iter are ONE-SHOT: whoever iterates first gets the names, everybody after
+# that gets nothing.  Every entry point must therefore answer as for the list the argument enumerates.
+FORMS = ["text", "list", "tuple", "keys", "genexp", "map", "filter", "iter"]
+ONE_SHOT = ("genexp", "map", "filter", "iter")
+SEPS = [",", ", ", " ,", " , ", ",\n    ", ",\t", " ,\n", "\t,\t"]
+
+
+def station_request(form, spelled, sep=", "):
+    """-> (factory of a fresh argument object, Coq term of the request, Python expression for the replay)"""
+    spelled = list(spelled)
+    if form == "text":
+        text = sep.join(spelled)
+        return (lambda: text), f"(AsText {emit.s(text)})", repr(text)
+    if form == "list":
+        return (lambda: list(spelled)), f"(AsList {emit.lst(emit.s(x) for x in spelled)})", repr(spelled)
+    if form == "tuple":
+        return (lambda: tuple(spelled)), f"(AsList {emit.lst(emit.s(x) for x in spelled)})", repr(tuple(spelled))
+    if form == "keys":      # the module documentation itself passes source_data.keys(); a key view lists each name once
+        uniq = list(dict.fromkeys(spelled))
+        return (lambda: dict.fromkeys(spelled).keys()), f"(AsList {emit.lst(emit.s(x) for x in uniq)})", \
+            f"dict.fromkeys({spelled!r}).keys()"
+    if form == "genexp":
+        return (lambda: (x for x in spelled)), f"(AsIter {emit.lst(emit.s(x) for x in spelled)})", f"(x for x in {spelled!r})"
+    if form == "map":
+        swapped = [x.swapcase() for x in spelled]
+        return (lambda: map(str.swapcase, swapped)), f"(AsIter {emit.lst(emit.s(x) for x in spelled)})", \
+            f"map(str.swapcase, {swapped!r})"
+    if form == "filter":
+        padded = [y for x in spelled for y in (x, "")]
+        return (lambda: filter(None, padded)), f"(AsIter {emit.lst(emit.s(x) for x in spelled)})", f"filter(None, {padded!r})"
+    if form == "iter":
+        return (lambda: iter(spelled)), f"(AsIter {emit.lst(emit.s(x) for x in spelled)})", f"iter({spelled!r})"
+    raise ValueError(form)
+
+
+def ext_term(dt):
+    if dt == datetime.min:
+        return "NegInf"
+    if dt == datetime.max:
+        return "PosInf"
+    return f"(Fin {emit.z(us(dt))})"
+
+
+def hist_term(hobj):
+    """history object returned by get_history -> `option history` term (insertion order of the dict is observable)"""
+    if isinstance(hobj, str):
+        return hobj
+    if hobj.history is None:
+        return "None"
+    return "(Some " + emit.lst(emit.pair(emit.pair(ext_term(a), ext_term(b_)), emit.z(v._info["verif_id"]))
+                               for (a, b_), v in hobj.history.items()) + ")"
+
+
 # ----------------------------------------------------------------------------- the run
 def run(ctx):
     ok = ctx.prove(THEOREMS)
@@ -230,13 +286,19 @@ def run(ctx):
     names = ["zimm", "osls", "tro1", "ab12", "ny_a"]
     casesB, metaB = [], []
     casesC, metaC = [], []
+    casesBh, metaBh = [], []
+    casesCh, metaCh = [], []
     from midgard.site_info.site_info import SiteInfo
-    for _ in range(n_mod):
+
+    def bc_case(form=None, combined=None):
+        """one module-level case (get + get_history) and, on a full SINEX source, one combined case.
+        form / combined given = directed corpus (every form of the station argument reaches every entry point on
+        every run); None = drawn from the stream."""
         k = rng.randrange(1, 4)
         present = rng.sample(names, k)
-        upper_keys = rng.random() < 0.3
+        upper_keys = False if combined else rng.random() < 0.3
         module = rng.choice(MODULES)
-        source = "ssc" if (module == "site_coord" and rng.random() < 0.3) else "snx"
+        source = "ssc" if (not combined and module == "site_coord" and rng.random() < 0.3) else "snx"
         data = {}
         models = []
         ident0 = 0
@@ -248,41 +310,56 @@ def run(ctx):
             ident0 += 100
         ask = [rng.choice(names) if rng.random() < 0.15 else rng.choice(present) for _ in range(rng.randrange(1, 4))]
         spelled = [rng.choice([s, s.upper(), s.capitalize()]) for s in ask]
-        if rng.random() < 0.5:
-            sep = rng.choice([",", ", ", " ,", " , ", ",\n    ", ",\t", " ,\n", "\t,\t"])
-            stations = sep.join(spelled)
-            st_term = f"(AsText {emit.s(stations)})"
-        else:
-            stations = list(spelled)
-            st_term = f"(AsList {emit.lst(emit.s(s) for s in spelled)})"
+        fm = form if form is not None else rng.choice(["text", "text", "text", "list", "list"] + FORMS)
+        make, st_term, st_expr = station_request(fm, spelled, rng.choice(SEPS))
+        stations = st_expr                      # for the replay: the Python expression of the argument
+        wanted = list(dict.fromkeys(x.strip().lower() for x in spelled))
         all_ivs = [iv for _, ivs, _ in models for iv in ivs]
-        qd = rng.choice(gen_dates(rng, all_ivs) + ["last"])
+        qd = rng.choice(gen_dates(rng, all_ivs) + ([] if combined else ["last"]))
         date = "last" if qd == "last" else dt_of(qd)
         cls = module_cls(module)
         sd = copy.deepcopy(data)
         spath = rng.choice([None, "/data/site_info/source.file"])
-        res = observe(lambda: cls.get(source, sd, stations, date, source_path=spath))
+        sd_term = emit.lst(emit.pair(emit.s(key), "(Some " + raws_term(ivs, i0) + ")") for key, ivs, i0 in models)
+        base = dict(module=module, source=source, source_keys=[m[0] for m in models], intervals=[m[1] for m in models],
+                    stations=stations, stations_form=fm)
+        ctx.count(f"stations:{fm}:{'UPPERKEYS' if upper_keys else 'lowerkeys'}")
+
+        # module level, dated query
+        res = observe(lambda: cls.get(source, sd, make(), date, source_path=spath))
         if isinstance(res, dict):
             obs = "(inl " + emit.lst(emit.pair(emit.s(k_), ans_term(v)) for k_, v in res.items()) + ")"
         elif res.startswith("OTHER:"):
-            mism.append(("other", dict(kind="module_get", module=module, source=source, stations=stations, observed=res)))
-            continue
+            mism.append(("other", dict(base, kind="module_get", observed=res)))
+            return
         else:
             obs = f"(inr {res})"
-        sd_term = emit.lst(emit.pair(emit.s(key), "(Some " + raws_term(ivs, i0) + ")") for key, ivs, i0 in models)
         casesB.append(emit.pair(sd_term, st_term, query_term(qd), obs))
-        rep = dict(kind="module_get", module=module, source=source, source_keys=[m[0] for m in models],
-                   intervals=[m[1] for m in models], stations=stations,
-                   query=("last" if qd == "last" else date.isoformat()), observed=obs)
+        rep = dict(base, kind="module_get", query=("last" if qd == "last" else date.isoformat()), observed=obs,
+                   how=f"{cls.__name__}.get({source!r}, <source data>, {st_expr}, date, source_path={spath!r})")
         metaB.append(rep)
-        ctx.count(f"stations:{'text' if isinstance(stations, str) else 'list'}:{'UPPERKEYS' if upper_keys else 'lowerkeys'}")
-        ctx.case(("B", module, source, tuple(m[0] for m in models), repr(stations), qd, obs), nontrivial=True,
+        ctx.case(("B", module, source, tuple(m[0] for m in models), stations, qd, obs), nontrivial=True,
                  sample=rep if len(metaB) < 3 else None)
+
+        # module level, get_history (the history object itself)
+        res = observe(lambda: cls.get_history(source, sd, make(), source_path=spath))
+        if isinstance(res, dict):
+            obs = "(inl " + emit.lst(emit.pair(emit.s(k_), hist_term(v)) for k_, v in res.items()) + ")"
+        elif res.startswith("OTHER:"):
+            mism.append(("other", dict(base, kind="module_get_history", observed=res)))
+            return
+        else:
+            obs = f"(inr {res})"
+        if digest(sd) != digest(data):
+            mism.append(("mutated", dict(base, kind="module_get_history", before=digest(data), after=digest(sd))))
+        casesBh.append(emit.pair(sd_term, st_term, obs))
+        metaBh.append(dict(base, kind="module_get_history", observed=obs,
+                           how=f"{cls.__name__}.get_history({source!r}, <source data>, {st_expr}, source_path={spath!r})"))
+        ctx.case(("Bh", module, source, tuple(m[0] for m in models), stations, obs), nontrivial=True)
 
         # combined query on a full snx source (all four history modules + identifier), lower-case keys
         if source == "snx" and not upper_keys and qd != "last":
             full = {}
-            mods_terms = []
             per_mod = {m: [] for m in MODULES}
             ident0 = 0
             for st in present:
@@ -294,43 +371,76 @@ def run(ctx):
                     per_mod[m].append((st, ivs, ident0))
                     ident0 += 100
             order = ["antenna", "eccentricity", "receiver", "site_coord"]   # SiteInfo._MODULES order w/o identifier
-            fsd = copy.deepcopy(full)
-            before = digest(fsd)
-            res = observe(lambda: SiteInfo.get("snx", fsd, stations, date, source_path=spath))
-            after = digest(fsd)
-            if before != after:
-                mism.append(("mutated", dict(kind="site_info_get", stations=stations, before=before, after=after)))
-            if isinstance(res, dict):
-                rows = []
-                okc = True
-                for st_, row in res.items():
-                    if list(row.keys()) != ["antenna", "eccentricity", "identifier", "receiver", "site_coord"]:
-                        okc = False
-                    # the combined answer must be the very thing the module returns (property oracle)
-                    for m in order:
-                        single = observe(lambda: module_cls(m).get("snx", copy.deepcopy(full), st_, date, source_path=spath)[st_])
-                        if ans_term(single) != ans_term(row[m]):
-                            okc = False
-                    rows.append(emit.pair(emit.s(st_), emit.lst(ans_term(row[m]) for m in order)))
-                if not okc:
-                    mism.append(("combined", dict(kind="site_info_get", stations=stations, query=date.isoformat(),
-                                                  what="SiteInfo.get differs from the individual modules")))
-                obs = "(inl " + emit.lst(rows) + ")"
-            elif res.startswith("OTHER:"):
-                mism.append(("other", dict(kind="site_info_get", stations=stations, observed=res)))
-                continue
-            else:
-                obs = f"(inr {res})"
             mods_term = emit.lst(
                 emit.lst(emit.pair(emit.s(st), "(Some " + raws_term(ivs, i0) + ")") for st, ivs, i0 in per_mod[m]) for m in order)
-            casesC.append(emit.pair(mods_term, st_term, query_term(qd), obs))
-            metaC.append(dict(kind="site_info_get", stations=stations, query=date.isoformat(), observed=obs,
-                              source={m: [(s_, iv) for s_, iv, _ in per_mod[m]] for m in order}))
-            ctx.case(("C", repr(stations), qd, obs), nontrivial=True)
+            cbase = dict(stations=stations, stations_form=fm, query=date.isoformat(),
+                         source={m: [(s_, iv) for s_, iv, _ in per_mod[m]] for m in order})
+            ctx.count(f"combined:{fm}")
+            for entry in ("get", "get_history"):
+                kind = "site_info_" + entry
+                keys_expected = (["antenna", "eccentricity", "identifier", "receiver", "site_coord"] if entry == "get" else order)
+                how = (f"SiteInfo.get('snx', <source data>, {st_expr}, date, source_path={spath!r})" if entry == "get" else
+                       f"SiteInfo.get_history('snx', <source data>, {st_expr}, source_path={spath!r})")
+                fsd = copy.deepcopy(full)
+                before = digest(fsd)
+                if entry == "get":
+                    res = observe(lambda: SiteInfo.get("snx", fsd, make(), date, source_path=spath))
+                else:
+                    res = observe(lambda: SiteInfo.get_history("snx", fsd, make(), source_path=spath))
+                after = digest(fsd)
+                if before != after:
+                    mism.append(("mutated", dict(cbase, kind=kind, how=how, before=before, after=after)))
+                if isinstance(res, dict):
+                    term = ans_term if entry == "get" else hist_term
+                    # property oracle: every station asked for, every module, and the very thing the module returns
+                    bad = []
+                    if list(res.keys()) != wanted:
+                        bad.append(f"stations {list(res.keys())}, asked for {wanted}")
+                    for st_, row in res.items():
+                        if list(row.keys()) != keys_expected:
+                            bad.append(f"[{st_!r}] has the entries {list(row.keys())}, expected {keys_expected}")
+                        for m in order:
+                            if m not in row:
+                                continue
+                            if entry == "get":
+                                single = observe(lambda: module_cls(m).get("snx", copy.deepcopy(full), st_, date, source_path=spath)[st_])
+                            else:
+                                single = observe(lambda: module_cls(m).get_history("snx", copy.deepcopy(full), st_, source_path=spath)[st_])
+                            if term(single) != term(row[m]):
+                                bad.append(f"[{st_!r}][{m!r}] = {term(row[m])}, the module returns {term(single)}")
+                    if bad:
+                        mism.append(("combined", dict(cbase, kind=kind, how=how, differences=bad[:6],
+                                                      what=f"SiteInfo.{entry} differs from the individual modules")))
+                        continue        # rows are incomplete: nothing to ship to the model
+                    obs = "(inl " + emit.lst(emit.pair(emit.s(st_), emit.lst(term(row[m]) for m in order))
+                                             for st_, row in res.items()) + ")"
+                elif res.startswith("OTHER:"):
+                    mism.append(("other", dict(cbase, kind=kind, how=how, observed=res)))
+                    continue
+                else:
+                    obs = f"(inr {res})"
+                if entry == "get":
+                    casesC.append(emit.pair(mods_term, st_term, query_term(qd), obs))
+                    metaC.append(dict(cbase, kind=kind, how=how, observed=obs))
+                else:
+                    casesCh.append(emit.pair(mods_term, st_term, obs))
+                    metaCh.append(dict(cbase, kind=kind, how=how, observed=obs))
+                ctx.case(("C", entry, stations, qd, obs), nontrivial=True)
+
+    # directed corpus first: every form of the station argument through every entry point, on every run
+    for fm in FORMS:
+        for _ in range(2):
+            bc_case(form=fm, combined=True)
+    for _ in range(n_mod):
+        bc_case()
     vsB = ctx.coq_cases(emit.shard_terms("check_module", casesB, 200), REQ)
     flatB = emit.flatten_verdicts(vsB, len(casesB))
     vsC = ctx.coq_cases(emit.shard_terms("check_site_info", casesC, 100), REQ)
     flatC = emit.flatten_verdicts(vsC, len(casesC))
+    vsBh = ctx.coq_cases(emit.shard_terms("check_module_history", casesBh, 200), REQ)
+    flatBh = emit.flatten_verdicts(vsBh, len(casesBh))
+    vsCh = ctx.coq_cases(emit.shard_terms("check_site_info_history", casesCh, 100), REQ)
+    flatCh = emit.flatten_verdicts(vsCh, len(casesCh))
 
     # ---- D. repeated queries on the same source object (purity)
     casesD, metaD = [], []
@@ -369,7 +479,8 @@ def run(ctx):
     exF = rendered_file_cases(ctx, mism)
 
     # ---------------------------------------------------------------- decide
-    for name, flat, meta in (("A", flatA, metaA), ("B", flatB, metaB), ("C", flatC, metaC), ("D", flatD, metaD), ("E", exE[0], exE[1]), ("F", exF[0], exF[1])):
+    for name, flat, meta in (("A", flatA, metaA), ("B", flatB, metaB), ("C", flatC, metaC), ("Bh", flatBh, metaBh), ("Ch", flatCh, metaCh),
+                             ("D", flatD, metaD), ("E", exE[0], exE[1]), ("F", exF[0], exF[1])):
         if flat is None:
             ctx.violation({"broken": f"correspondence shard {name} did not evaluate in Coq", "errors": ctx.last_coq_errors[:2]},
                           what="correspondence (model evaluation) failed", found=False)
@@ -392,6 +503,8 @@ def run(ctx):
     for kind, rep in mism:
         if kind == "mutated":
             ctx.violation(rep, what="query changed the source data")
+        elif kind == "combined":
+            ctx.violation(rep, what=rep.get("what", "the combined query differs from the individual modules"))
         else:
             ctx.violation(rep, what=f"outside the model: {kind}")
     # repeated-query source mutation seen in D even when answers agreed
@@ -416,7 +529,9 @@ def run(ctx):
         level="proof",
         rule=("random histories of 0..9 intervals (contiguous/gapped/mixed/overlapping/duplicate keys, open ends, shuffled "
               "insertion order) x dates on every boundary +-1us/+-1s, mid-interval, far past/future, 'last'; 4 modules x snx/ssc; "
-              "station lists as text/list in three letter cases with lower/upper source keys; SiteInfo.get vs modules; repeated "
+              "station arguments as text/list/tuple/dict keys view/generator expression/map/filter/iterator (directed corpus: every form through "
+              "Module.get, Module.get_history, SiteInfo.get, SiteInfo.get_history on every run) in three letter cases with lower/upper "
+              "source keys; SiteInfo.get / get_history vs modules; repeated "
               "queries with source digests. distinct_nontrivial = distinct (module, source, history, query) with >= 2 intervals or "
               "multi-station / repeated-query cases"),
     )
